@@ -3,14 +3,28 @@
 #   ./run.sh setup                 build the harness offline
 #   ./run.sh Cxx quick|thorough    rebuild against /repo's current tree and run one check
 #   ./run.sh replay <file>         re-run the case recorded in a replay file
+# Environment: VERIF_SEED, VERIF_TIER as in MANIFEST.json.
+# For the mutant self-test only: VERIF_REPO=<scratch copy of the repository> builds against that copy
+# (separate binary) and VERIF_OUT=<dir> redirects work/evidence/replay output; registered checks use neither.
 set -u
 cd "$(dirname "$0")"
 export VERIF_ROOT="$PWD"
 export GOFLAGS=-mod=mod GOPROXY=off GOSUMDB=off GOTOOLCHAIN=local
 export GOCACHE="${GOCACHE:-$HOME/.cache/go-build}"
 
+BIN=bin/vcheck
+MODFLAG=""
+if [ -n "${VERIF_REPO:-}" ] && [ "$VERIF_REPO" != "/repo" ]; then
+  tag=$(echo "$VERIF_REPO" | cksum | cut -d' ' -f1)
+  BIN="bin/vcheck-alt-$tag"
+  mkdir -p "harness/bin"
+  sed "s#=> /repo#=> $VERIF_REPO#" harness/go.mod > "harness/bin/alt-$tag.mod"
+  cp harness/go.sum "harness/bin/alt-$tag.sum"
+  MODFLAG="-modfile=bin/alt-$tag.mod"
+fi
+
 build() { # $1 = extra flag (e.g. -race), $2 = output
-  (cd harness && go build -tags verif $1 -o "$2" ./cmd/vcheck) || { echo "BUILD FAILED"; exit 3; }
+  (cd harness && go build $MODFLAG -tags verif $1 -o "$2" ./cmd/vcheck) || { echo "BUILD FAILED"; exit 3; }
 }
 
 case "${1:-}" in
@@ -20,16 +34,16 @@ case "${1:-}" in
     echo "setup ok"
     ;;
   replay)
-    build "" bin/vcheck
-    exec harness/bin/vcheck replay "$2"
+    build "" $BIN
+    exec harness/$BIN replay "$2"
     ;;
   C14)
-    build "-race" bin/vcheck-race
-    exec harness/bin/vcheck-race C14 "${2:-${VERIF_TIER:-quick}}"
+    build "-race" $BIN-race
+    exec harness/$BIN-race C14 "${2:-${VERIF_TIER:-quick}}"
     ;;
   C[0-9][0-9])
-    build "" bin/vcheck
-    exec harness/bin/vcheck "$1" "${2:-${VERIF_TIER:-quick}}"
+    build "" $BIN
+    exec harness/$BIN "$1" "${2:-${VERIF_TIER:-quick}}"
     ;;
   *)
     echo "usage: $0 setup | Cxx quick|thorough | replay <file>"; exit 2;;
